@@ -812,7 +812,7 @@ def check_property_on_impl(ctx, case, res, stats):
 
 
 def run(ctx):
-    ok1 = ctx.obligations_stage(PROPS, extra_targets=['C08/Examples.vo', 'C08/CaseLib.vo'])
+    ok1 = ctx.obligations_stage(PROPS, extra_targets=['C08/Examples.vo', 'C08/Examples2.vo', 'C08/CaseLib.vo'], gate_dirs=['C15'])
     ctx.assumptions += [
         'model: hand transcription of chunk_tasks, the thread-pool split of multi_entries/multi_blocks, '
         'generic_assemble_core_vec_{1,2,3}d + kernel (skip rule, mirrored writes), get_transpose_idx_for_bidx, '
@@ -1078,7 +1078,10 @@ META = {
                   'transposed mirror blocks (symmetric_equals_full) and for the generic core kernel with its skip rule and mirrored transposed component blocks, any '
                   'number of levels (symmetric_equals_full_core); the packed<->blocked index map is the stated permutation and a bijection, square and non-square '
                   'component blocks (packed_blocked_permutation, layout_permutation_bijective); COO->CSR and COO->CSC denote the same entries, sum_duplicates keeps '
-                  'every column sum and is canonical (format_irrelevant_partial, sum_duplicates_same, sum_duplicates_canonical); on an abstract slot store, update(n) '
+                  'every column sum and is canonical (format_irrelevant_partial, sum_duplicates_same, sum_duplicates_canonical), BSR denotes the sum of its blocks and '
+                  'block gathering keeps the entries (bsr_denotes_blocks, bsr_gather_same), the packed MLB coordinates are C15 nonzero() in data order '
+                  '(mlb_is_nonzero_order); a memoised function is transparent for every call history iff the key determines the result '
+                  '(memo_sound_iff_key_determines, refuted for the key (p, numdofs, mesh) in Examples2); on an abstract slot store, update(n) '
                   'equals fresh construction for single updates and whole histories iff-style under the generator obligation "every array fed by an updatable input '
                   'is refreshed, nothing else" (update_equals_fresh, update_history_equals_fresh, reuse_idempotent, update_checked_equals_fresh, '
                   'update_incomplete_stale). Tie: on every run the model predicts, exactly, every assembled matrix (symmetric flag x format x layout), the generic core '
